@@ -69,7 +69,8 @@ def cases(tier, seed):
     out = []
     wrappers = [dict(p=2, wrapper='identity'), dict(p=3, wrapper='wraps'), dict(p=3, r=1, wrapper='identity'), dict(p=1, q=2, wrapper='identity'),
                 dict(p=4, wrapper='wraps'), dict(p=2, q=2, wrapper='identity')]
-    for cfg in _cfg_list(tier, rng) + wrappers:
+    fuzz = [pat.random_cfg(rng, d=rng.choice((2, 3, 3, 4)))[0] for _ in range(25 if tier == 'quick' else 250)]
+    for cfg in _cfg_list(tier, rng) + wrappers + fuzz:
         d = _d_of(cfg)
         out.append(dict(kind='config', cfg=cfg))
         if d <= 2:
